@@ -226,7 +226,10 @@ def g_ioc(spec, r):
         else:
             ind = r.choice([b"256.1.1.1", b"1.2.3.04", b"0x7f.0.0.1", b"1.2.3.4.5", b"10.0.0.255", b"0.0.0.0", b"999.1.1.1",
                             b"a.notatld", b"xn--abcde.xn--p1ai", b"foo.com1", b"foo.com0", b"x@y.com", b"a..b@example.com",
-                            b"user@host.zzzzq", b"1.2.3.4%20", b"\\\\010.1.1.1\\share\\f.txt", b"\\\\?\\UNC\\0x7f.1\\share\\a.dll"])
+                            b"user@host.zzzzq", b"1.2.3.4%20", b"\\\\010.1.1.1\\share\\f.txt", b"\\\\?\\UNC\\0x7f.1\\share\\a.dll",
+                            # short-form hosts whose canonical form is longer than what follows them once dot segments are removed
+                            b"\\\\.\\UNC\\7\\.\\run", b"\\\\.\\UNC\\10\\tmp\\..\\abc", b"\\\\?\\UNC\\1\\a\\..\\..\\xyz", b"\\\\7\\.\\run",
+                            b"http://[::ffff:7f00:1]/", b"http://[0:0:0:0:0:FFFF:0A00:0005]/x"])
         yield "ioc", _embed(r, ind), None
 
 
@@ -490,6 +493,13 @@ def g_psstack(spec, r):
         yield "psstack", r.choice([b"", b"x ", b"run: "]) + cur, r.choice([None, 1, 1, 2, 2, 3, 4])
 
 
+def g_netmix(spec, r):
+    """URL / indicator / path workloads of C10-C12 as plain inputs (totality, tree shape)."""
+    gens = [g(spec, r) for g in (g_url, g_ioc, g_twopaths, g_overlap)]
+    while True:
+        yield next(r.choice(gens))
+
+
 def g_codec(spec, r):
     """The structured single-expression cases of C13-C15 (every spelling, boundary and size class their generators know),
     as plain inputs for the properties that judge something else (totality, tree shape)."""
@@ -520,7 +530,7 @@ def g_codec(spec, r):
 
 GENERATORS = {
     "skel": g_skel, "xor": g_xor, "cmd": g_cmd, "pe": g_pe, "xorbytes": g_xorbytes, "matryoshka": g_matryoshka,
-    "nesting": g_nesting, "seedmut": g_seedmut, "soup": g_soup, "large": g_large, "repeat": g_repeat, "url": g_url, "ioc": g_ioc, "layer": g_layer, "ctxdec": g_ctxdec, "nest": g_nest, "plainnest": g_plainnest, "repeatunit": g_repeatunit, "echo": g_echo, "expand": g_expand, "overlap": g_overlap, "twopaths": g_twopaths, "bom": g_bom, "unicase": g_unicase, "codec": g_codec, "psstack": g_psstack,
+    "nesting": g_nesting, "seedmut": g_seedmut, "soup": g_soup, "large": g_large, "repeat": g_repeat, "url": g_url, "ioc": g_ioc, "layer": g_layer, "ctxdec": g_ctxdec, "nest": g_nest, "plainnest": g_plainnest, "repeatunit": g_repeatunit, "echo": g_echo, "expand": g_expand, "overlap": g_overlap, "twopaths": g_twopaths, "bom": g_bom, "unicase": g_unicase, "codec": g_codec, "psstack": g_psstack, "netmix": g_netmix,
 }
 
 
